@@ -11,6 +11,7 @@
 import MantraDex.Model.System
 import MantraDex.Model.SsMon
 import MantraDex.Proofs.NumLemmas
+import MantraDex.Proofs.SwapLemmas
 import MantraDex.Properties.C04
 
 set_option linter.unusedSimpArgs false
@@ -22,7 +23,21 @@ open MantraDex
 theorem cp_gross_formula {p : PoolInfo} {X Y o : Nat} {c : SwapComputation}
     (h : computeSwapCP p X Y o = .ok c) :
     c.ret + c.swapFee + c.protocolFee + c.burnFee + c.extraFees = Y * o / (X + o) := by
-  sorry
+  obtain ⟨_, slip, fc, _, hc⟩ := computeSwapCP_inv h
+  exact getSwapComputation_sum hc
+
+/-- the arithmetic core: if at most ⌊Y·o/(X+o)⌋ leaves the ask reserve, x·y does not decrease -/
+theorem cp_k_arith {X Y o out : Nat} (hog : out ≤ Y * o / (X + o)) :
+    out ≤ Y ∧ X * Y ≤ (X + o) * (Y - out) := by
+  have hgY : Y * o / (X + o) ≤ Y := mul_div_le_of_le (Nat.le_add_left o X)
+  have h1 : (X + o) * (Y * o / (X + o)) ≤ Y * o := Nat.mul_div_le _ _
+  generalize Y * o / (X + o) = g at hog hgY h1
+  refine ⟨Nat.le_trans hog hgY, ?_⟩
+  have h2 : (X + o) * Y = X * Y + Y * o := by rw [Nat.add_mul, Nat.mul_comm o Y]
+  calc X * Y = (X + o) * Y - Y * o := by omega
+    _ ≤ (X + o) * Y - (X + o) * g := Nat.sub_le_sub_left h1 _
+    _ = (X + o) * (Y - g) := (Nat.mul_sub _ _ _).symm
+    _ ≤ (X + o) * (Y - out) := Nat.mul_le_mul_left _ (by omega)
 
 /-- x·y never decreases: what leaves the ask reserve (net + protocol + burn) is at most the gross
     output ⌊Y·o/(X+o)⌋, hence (X+o)·(Y − out) ≥ X·Y — for every fee setting, including zero fees -/
@@ -30,7 +45,29 @@ theorem cp_swap_k_mono {p : PoolInfo} {X Y o : Nat} {c : SwapComputation}
     (h : computeSwapCP p X Y o = .ok c) :
     c.ret + c.protocolFee + c.burnFee ≤ Y ∧
     X * Y ≤ (X + o) * (Y - (c.ret + c.protocolFee + c.burnFee)) := by
-  sorry
+  have hg := cp_gross_formula h
+  have hog : c.ret + c.protocolFee + c.burnFee ≤ Y * o / (X + o) := by omega
+  exact cp_k_arith hog
+
+/-- `get_asset_indexes_in_pool` on a two-asset pool: the two indexes are 0/1 or 1/0 and the coins
+    are the stored reserves -/
+theorem getAssetIndexes_two {pool : PoolInfo} {x y : Nat} {d0 d1 od ad : Denom}
+    {oc ac : Coin} {oi ai odc adc : Nat}
+    (hassets : pool.assets = [⟨d0, x⟩, ⟨d1, y⟩])
+    (h : getAssetIndexes pool od ad = .ok (oc, ac, oi, ai, odc, adc)) :
+    (oi = 0 ∧ ai = 1 ∧ oc = ⟨d0, x⟩ ∧ ac = ⟨d1, y⟩) ∨ (oi = 1 ∧ ai = 0 ∧ oc = ⟨d1, y⟩ ∧ ac = ⟨d0, x⟩) := by
+  unfold getAssetIndexes at h
+  rw [hassets] at h
+  simp only [findIdx] at h
+  by_cases h0 : (d0 == od) = true <;> by_cases h1 : (d0 == ad) = true <;>
+    by_cases h2 : (d1 == od) = true <;> by_cases h3 : (d1 == ad) = true <;>
+    simp [h0, h1, h2, h3, bind, Except.bind, getD?, pure, Except.pure] at h
+  all_goals
+    cases hd0 : pool.decimals[0]? <;> cases hd1 : pool.decimals[1]? <;>
+      simp only [hd0, hd1, reduceCtorEq, Except.ok.injEq, Prod.mk.injEq] at h
+  all_goals
+    obtain ⟨rfl, rfl, rfl, rfl, -, -⟩ := h
+    simp
 
 /-- the same at the handler level: after `perform_swap` on a two-asset constant-product pool the
     product of the two stored reserves is at least what it was -/
@@ -40,7 +77,33 @@ theorem performSwap_k_mono {s s' : PmState} {offer : Coin} {ask : Denom} {pid : 
     (hassets : pool.assets = [⟨d0, x⟩, ⟨d1, y⟩]) (hd : d0 ≠ d1)
     (h : performSwap s offer ask pid b ms = .ok (s', r)) :
     ∃ x' y', r.pool.assets = [⟨d0, x'⟩, ⟨d1, y'⟩] ∧ x * y ≤ x' * y' := by
-  sorry
+  have _ := hd
+  unfold performSwap at h
+  simp only [bind_ok, pure_ok, hp, Except.ok.injEq, exists_eq_left'] at h
+  obtain ⟨⟨oc, ac, oi, ai, odc, adc⟩, hidx, c, hcs, _, _, oc', hoc', newOffer, hno, outgoing, hout,
+    ac', hac', a1, ha1, a2, ha2, hr⟩ := h
+  unfold computeSwap at hcs
+  simp only [bind_ok, hidx, Except.ok.injEq, exists_eq_left', hcp] at hcs
+  obtain ⟨-, hk⟩ := cp_swap_k_mono hcs
+  simp only [Prod.mk.injEq] at hr
+  obtain ⟨-, rfl⟩ := hr
+  simp only [hassets, ckAdd_ok, ckSub_ok] at hoc' hno hout hac' ha1 ha2 hk ⊢
+  obtain ⟨-, rfl⟩ := hno
+  obtain ⟨-, rfl⟩ := hout
+  obtain ⟨-, rfl⟩ := ha1
+  obtain ⟨-, rfl⟩ := ha2
+  rcases getAssetIndexes_two hassets hidx with ⟨rfl, rfl, rfl, rfl⟩ | ⟨rfl, rfl, rfl, rfl⟩
+  · simp [getD?, setAmount, List.zipIdx] at hoc' hac' hk ⊢
+    subst hoc' hac'
+    refine ⟨_, _, ⟨rfl, rfl⟩, ?_⟩
+    simp only [Nat.sub_sub, ← Nat.add_assoc]
+    exact hk
+  · simp [getD?, setAmount, List.zipIdx] at hoc' hac' hk ⊢
+    subst hoc' hac'
+    refine ⟨_, _, ⟨rfl, rfl⟩, ?_⟩
+    simp only [Nat.sub_sub, ← Nat.add_assoc]
+    rw [Nat.mul_comm x y, Nat.mul_comm _ (y + offer.amount)]
+    exact hk
 
 /-- swap o of A for B, then swap the proceeds back (any fee settings, the pool may have been moved
     by the first swap only): the trader gets back at most o -/
@@ -49,7 +112,22 @@ theorem cp_round_trip_no_profit {p : PoolInfo} {X Y o : Nat} {c1 c2 : SwapComput
     (h1 : computeSwapCP p X Y o = .ok c1)
     (h2 : computeSwapCP p (Y - (c1.ret + c1.protocolFee + c1.burnFee)) (X + o) c1.ret = .ok c2) :
     c2.ret ≤ o := by
-  sorry
+  obtain ⟨ho1, hk1⟩ := cp_swap_k_mono h1
+  obtain ⟨ho2, hk2⟩ := cp_swap_k_mono h2
+  have hr1 : c1.ret ≤ c1.ret + c1.protocolFee + c1.burnFee := by omega
+  generalize c1.ret + c1.protocolFee + c1.burnFee = out1 at *
+  apply Nat.le_of_not_lt
+  intro hlt
+  have hA : Y - out1 + c1.ret ≤ Y := by omega
+  have hB : X + o - (c2.ret + c2.protocolFee + c2.burnFee) ≤ X - 1 := by omega
+  have hchain : X * Y ≤ Y * (X - 1) :=
+    calc X * Y ≤ (X + o) * (Y - out1) := hk1
+      _ = (Y - out1) * (X + o) := Nat.mul_comm _ _
+      _ ≤ (Y - out1 + c1.ret) * (X + o - (c2.ret + c2.protocolFee + c2.burnFee)) := hk2
+      _ ≤ Y * (X - 1) := Nat.mul_le_mul hA hB
+  rw [Nat.mul_sub, Nat.mul_one, Nat.mul_comm Y X] at hchain
+  have : Y ≤ X * Y := Nat.le_mul_of_pos_left _ hX
+  omega
 
 /-- F-03 witness: a 6/6-decimals pool 10^12 / 10^12, amp 100, zero fees, offer 10^6: the contract
     returns 1 000 000 although the exact output is 999 999.99…, so the exact invariant decreases.
@@ -59,10 +137,11 @@ def witnessPool : PoolInfo :=
     assets := [⟨"a", 1000000000000⟩, ⟨"b", 1000000000000⟩], ptype := .stable 100,
     fees := ⟨0, 0, 0, []⟩, status := {} }
 
+set_option maxRecDepth 100000 in
 theorem ss_swap_D_witness :
     (computeSwap witnessPool ⟨"a", 1000000⟩ "b").toOption.map (·.ret) = some 1000000 ∧
     Spec.dFloorScaled 200 [1000001000000, 999999000000] 1000000 <
       Spec.dFloorScaled 200 [1000000000000, 1000000000000] 1000000 := by
-  sorry
+  decide +kernel
 
 end MantraDex.C03
